@@ -2,7 +2,7 @@
    Only property theorems here, each closed by `exact <lemma>`; proofs are in Proofs*.v; Link.v ties the character
    test of valid_sid to the source.  `fresh` is the random source (i-th identifier); the theorems that need it assume
    that it yields well-formed (fresh_ok) resp. pairwise distinct (fresh_inj) identifiers. *)
-From CppcmsV Require Import Base.Tac C06.Defs C06.Proofs C06.ProofsNum C06.ProofsMap C06.Proofs2 C06.Proofs3 C06.Proofs4 C06.Proofs5 C06.Proofs6 C06.Proofs7.
+From CppcmsV Require Import Base.Tac C06.Defs C06.Proofs C06.ProofsNum C06.ProofsMap C06.Proofs2 C06.Proofs3 C06.Proofs4 C06.Proofs5 C06.Proofs6 C06.Proofs7 C06.Proofs8.
 Local Open Scope N_scope.
 
 (* ------------------------------------------------------------------------------------------------------------
@@ -26,7 +26,7 @@ Example codec_nonvacuous :
   let m := [([97], ([49; 50], true)); ([97; 98], ([], false)); ([98], ([0; 255], false))] in
   ssorted m /\ save_data m = Some [1;20;0;0;97;49;50; 2;0;0;0;97;98; 1;16;0;0;98;0;255] /\
   load_data [1;20;0;0;97;49;50; 2;0;0;0;97;98; 1;16;0;0;98;0;255] = LOk m /\ load_data [1;20;0;0;97;49] = LErr.
-Proof. cbn. repeat split; repeat constructor. Qed.
+Proof. cbv zeta. split; [unfold ssorted, key_below; repeat constructor|]. repeat split; vm_compute; reflexivity. Qed.
 
 (* ------------------------------------------------------------------------------------------------------------
    2. only_wellformed_ids_reach_storage: in every history (requests of any browsers, clock advances, attacker
@@ -328,6 +328,22 @@ Theorem exposed_cookies_only_for_exposed_keys_partial : forall now age force s x
   In kv (update_exposed now age force s x) -> is_exposed (fst kv) (s_data s) = true.
 Proof. intros now age force s x kv H. unfold update_exposed in H. apply filter_In in H. exact (proj2 H). Qed.
 Print Assumptions exposed_cookies_only_for_exposed_keys_partial.
+
+(* proved positive half: the cookie of every exposed entry with a non-empty value that is new, changed or newly exposed
+   (entry_changed w.r.t. what was loaded), and of every exposed entry when the update is forced (an unchanged session
+   that is being renewed), is in the jar after update_exposed, with that value and the lifetime of the session cookie *)
+Theorem exposed_changed_or_forced_is_sent : forall now age force s x k v ex,
+  ssorted (s_data s) -> dfind k (s_data s) = Some (v, true) -> v <> [] ->
+  force = true \/ entry_changed (s_copy s) k v = true ->
+  age_exp now age = Some ex ->
+  In (k, (v, ex)) (update_exposed now age force s x).
+Proof. exact update_exposed_sends. Qed.
+Print Assumptions exposed_changed_or_forced_is_sent.
+Example exposed_sent_nonvacuous :
+  In ([97], ([49], EAt 1000100%Z))
+     (update_exposed 1000000%Z 100%Z false (mksess [([97], ([49], true)); ([98], ([50], false))] [([97], ([49], false))] 100%Z 1%Z 0%Z false false)
+                     [([98], ([57], ESession)); ([122], ([57], ESession))]).
+Proof. apply exposed_changed_or_forced_is_sent; try reflexivity; [cbn; repeat constructor|discriminate|right; reflexivity]. Qed.
 
 Theorem exposed_in_step_refuted :
   exists c l, let '(w, obs) := run fresh_hex c world0 l in
